@@ -22,12 +22,22 @@ def run(chk: Check):
                 "actions and random histories of <= 9 actions enumerated by TLC, plus seeded random trees of nesting <= 4 over the "
                 "option list of the quantifier and contents over ASCII / CJK / emoji / combining / zero-width / newline / tab; each "
                 "rendered at every W in MinW-2..MinW+12 and a x1.5 ladder to 200; every sub-tree again stand-alone at the budgets "
-                "handed down.  evaluation = one record (tree, all its renders); non-trivial = in scope and at least one W >= MinW judged")
+                "handed down.  Half of the random trees (a third of TLC's) are rendered under a non-default environment (layout_gen.gen_env): W made "
+                "available through ConsoleOptions.update(width= | max_width=) on a wider console, ascii-only encoding, legacy_windows, "
+                "safe_box off, colour systems / NO_COLOR (bars), justify / overflow / no_wrap handed in through the options, console tab "
+                "size, highlighting off.  Recipe options beyond the layout list: Text spans / base style / tab_size / end, justify "
+                "'default', column overflow 'ignore', padding as int / 2-tuple, Panel.fit, Padding.indent, Align.left/center/right, "
+                "VerticalCenter, containers.Renderables, Table(*headers | Column objects), Table.grid, short rows / None cells, "
+                "end_section on any row, titles as Text, style options, safe_box, up to 6 columns x 8 rows.  "
+                "evaluation = one record (tree, all its renders); non-trivial = in scope and at least one W >= MinW judged")
     chk.trusted = ["drivers/layout_gen.py:line_widths (segments -> lines -> rich.cells.cell_len of the tree under test; only the "
                    "distinct widths and the number of lines of a render go to TLC)",
                    "drivers/layout_gen.py:project_text (character -> class, cell width)",
                    "drivers/layout_gen.py:build (abstract tree -> constructor calls)"]
-    chk.assumptions = ["Console(color_system=None, legacy_windows=False, utf-8); highlighting/markup leave widths unchanged (contents avoid '[' and ':')",
+    chk.assumptions = ["default console: Console(color_system=None, legacy_windows=False, utf-8), other environments as listed in the rule; "
+                       "highlighting/markup leave widths unchanged (contents avoid '[' and ':')",
+                       "Layout.tla C9/C10: overflow='ignore' / no_wrap handed in through the options, and a Text `end` other than the line feed, are in "
+                       "scope only beneath a cropping container (like a leaf's own overflow='ignore')",
                        "MinW as documented in specs/Layout.tla (conservative choices C1-C7)",
                        "a rejected record that has a rejected proper sub-tree is attributed to the sub-tree"]
     if chk.replay_only:
@@ -42,7 +52,9 @@ def run(chk: Check):
         n_tlc_used = len(trees)
         for _ in range(chk.pick(500, 6000)):
             trees.append(G.gen(chk.rng, 4))
-        chk.notes["trees"] = dict(tlc_generated=n_tlc, tlc_used=n_tlc_used, random=len(trees) - n_tlc_used)
+        n_rand = len(trees) - n_tlc_used
+        trees += G.boundary_trees()         # every kind of renderable x every environment preset (hand-listed, deterministic)
+        chk.notes["trees"] = dict(tlc_generated=n_tlc, tlc_used=n_tlc_used, random=n_rand, boundary=len(trees) - n_tlc_used - n_rand)
     prod = G.produce("C01", trees, subs=True, seed=chk.seed)
     items = [it for p in prod for it in p]
     chk.mark("render")
